@@ -120,7 +120,9 @@ func c07SetupDir(r *core.Run, sc c07Scen, seed int64, dir string) (*c07Ctx, erro
 				return nil, err
 			}
 			c.meltQ, c.meltH, c.invSat = mq.Id, inv.Hash, 50
-			env.Node.PlanPay(inv.Hash, sc.plan)
+			if sc.kind == "melt" {
+				env.Node.PlanPay(inv.Hash, sc.plan) // (PlanPay appends: the resolution scenarios plan their own pay call below)
+			}
 		}
 		if sc.kind != "melt" {
 			// a melt that Lightning left in flight and has meanwhile completed
@@ -225,6 +227,20 @@ func runC07(r *core.Run) {
 		os.RemoveAll(c.env.Dir)
 		if n == 0 {
 			r.Inconclusive("no boundary in scenario " + sc.name)
+			continue
+		}
+		// the trace must contain the call the scenario is about; otherwise its set-up did not
+		// produce the situation (a resolution scenario whose melt is not pending has one boundary)
+		must := map[string]string{"mint": "SaveBlindSignatures", "swap": "SaveBlindSignatures", "poll": "OutgoingPaymentStatus", "checkstate": "OutgoingPaymentStatus", "rotate": "SaveKeyset", "melt": "SendPayment"}[sc.kind]
+		if sc.internal {
+			must = "UpdateMintQuoteState"
+		}
+		reached := false
+		for _, nm := range names {
+			reached = reached || nm == must
+		}
+		if !reached {
+			r.Violate("setup:scenario-does-not-reach-its-subject:"+sc.name, fmt.Sprintf("the trace run of scenario %s never calls %s: %v", sc.name, must, names), sc.name, nil)
 			continue
 		}
 		for k := 0; k <= n; k++ {
